@@ -7,9 +7,10 @@
 //   b<hex> from_borrowed      c<hex> const_str/const_slice      o<hex>:<cap>:<variant> from owned
 //   z<n> from_owned(Vec<Zst>) s<r> from_shared(arc r .clone())  l<h> clone   d<h> deref
 //   m<h>,<h'> cmp/eq/hash     i<h> into_owned                   x<h> drop    X<h> drop on another thread
+//   j<h> into std::borrow::Cow (s and t modes)
 //   w<h>:<hex> with_extra     A<hex> Arc::from   C<r> caller Arc::clone   D<r> caller drops one Arc
 // stdout: one line per case, one token per op:  <res>/<dblocks>/<delems>/<strong,strong,..>
-//   res: u | c<hex> | m<0|1|2> | p | bad | f<Fault>
+//   res: u | c<hex> | m<0|1|2> | jB<hex> | jO<hex> | p | bad | f<Fault>
 // A counting global allocator (header + quarantine + poison) reports live-block deltas measured
 // tightly around the operation on the real type, and flags frees of blocks that are not live or
 // whose layout differs.  The process supervises a worker copy of itself, so that a crash in the
@@ -118,6 +119,21 @@ fn hash_of<T: Hash + ?Sized>(t: &T) -> u64 {
     h.finish()
 }
 
+// Does `std::borrow::Cow<'static, T>: From<H>` exist?  Decided at compile time by method resolution
+// (autoref specialisation), so that the driver builds against a /repo where the impl applies to no type
+// (`T: Cowable` without `?Sized`) and reports the operation as unsupported instead of failing to build.
+struct Probe<T>(std::cell::Cell<Option<T>>);
+macro_rules! std_cow_probe {
+    ($yes:ident, $no:ident, $src:ty, $dst:ty) => {
+        trait $yes { fn conv(&self) -> Option<$dst>; }
+        impl<T: Into<$dst>> $yes for Probe<T> { fn conv(&self) -> Option<$dst> { self.0.take().map(Into::into) } }
+        trait $no { fn conv(&self) -> Option<$dst>; }
+        impl<T> $no for &Probe<T> { fn conv(&self) -> Option<$dst> { None } }
+    };
+}
+std_cow_probe!(YesS, NoS, SharedString, std::borrow::Cow<'static, str>);
+std_cow_probe!(YesT, NoT, TCow, std::borrow::Cow<'static, [Tracked]>);
+
 // ------------------------------------------------------------------------------ the three handle types
 trait Hd: Sized + Send + 'static {
     type A: Clone;
@@ -129,6 +145,8 @@ trait Hd: Sized + Send + 'static {
     fn read(&self, out: &mut Vec<u8>);
     fn cmp3(&self, o: &Self) -> Option<u8>;
     fn into_owned_read(self, out: &mut Vec<u8>);
+    /// Some(true) = Borrowed, Some(false) = Owned, None = the conversion does not exist for this type
+    fn into_std_read(self, _out: &mut Vec<u8>) -> Option<bool> { None }
     fn with_extra(&self, extra: &[u8]) -> Self;
     fn new_arc(d: &[u8]) -> Option<Self::A>;
     fn strong(a: &Self::A) -> usize;
@@ -164,6 +182,14 @@ impl Hd for SharedString {
         Some(c)
     }
     fn into_owned_read(self, out: &mut Vec<u8>) { let s: String = self.into_owned(); out.extend_from_slice(s.as_bytes()); drop(s); }
+    fn into_std_read(self, out: &mut Vec<u8>) -> Option<bool> {
+        let p = Probe(std::cell::Cell::new(Some(self)));
+        let c: std::borrow::Cow<'static, str> = (&p).conv()?;
+        out.extend_from_slice(c.as_bytes());
+        let b = matches!(c, std::borrow::Cow::Borrowed(_));
+        drop(c);
+        Some(b)
+    }
     fn with_extra(&self, extra: &[u8]) -> Self {
         // the statements of Key::with_extra_labels, on a string
         if extra.is_empty() { return self.clone(); }
@@ -208,6 +234,14 @@ impl Hd for TCow {
         Some(c)
     }
     fn into_owned_read(self, out: &mut Vec<u8>) { let v: Vec<Tracked> = self.into_owned(); for t in &v { out.push(t.v); } drop(v); }
+    fn into_std_read(self, out: &mut Vec<u8>) -> Option<bool> {
+        let p = Probe(std::cell::Cell::new(Some(self)));
+        let c: std::borrow::Cow<'static, [Tracked]> = (&p).conv()?;
+        for t in c.iter() { out.push(t.v); }
+        let b = matches!(c, std::borrow::Cow::Borrowed(_));
+        drop(c);
+        Some(b)
+    }
     fn with_extra(&self, extra: &[u8]) -> Self {
         if extra.is_empty() { return self.clone(); }
         let mut v = self.clone().into_owned();
@@ -260,7 +294,7 @@ fn hex(b: &[u8]) -> String { b.iter().map(|x| format!("{:02x}", x)).collect() }
 struct Snap { blocks: i64, elems: i64, bad: i64 }
 fn snap<H: Hd>() -> Snap { Snap { blocks: LIVE_BLOCKS.load(SeqCst), elems: H::live_elems(), bad: BAD_FREES.load(SeqCst) } }
 
-enum R { Unit, Content, Cmp(u8), Panic, Bad, Fault(&'static str) }
+enum R { Unit, Content, Std(bool), Cmp(u8), Panic, Bad, Fault(&'static str) }
 
 fn run_ops<H: Hd>(ops: &str) -> String {
     let toks: Vec<&str> = ops.split_whitespace().collect();
@@ -274,7 +308,7 @@ fn run_ops<H: Hd>(ops: &str) -> String {
         // everything the operation needs is prepared before the measured region
         let arg = |i: usize| -> &str { rest.split(|ch| ch == ':' || ch == ',').nth(i).unwrap_or("") };
         let data = if matches!(c, "b" | "c" | "o" | "A") { unhex(arg(0)) } else if c == "w" { unhex(arg(1)) } else { Vec::new() };
-        let hidx: usize = if matches!(c, "l" | "d" | "m" | "i" | "x" | "X" | "w" | "s" | "C" | "D" | "z") { arg(0).parse().unwrap() } else { 0 };
+        let hidx: usize = if matches!(c, "l" | "d" | "m" | "i" | "j" | "x" | "X" | "w" | "s" | "C" | "D" | "z") { arg(0).parse().unwrap() } else { 0 };
         let mut new_h: Option<H> = None;
         let mut new_arc: Option<H::A> = None;
         let mut slot: Vec<H::A> = Vec::with_capacity(8);
@@ -344,6 +378,15 @@ fn run_ops<H: Hd>(ops: &str) -> String {
                     r = R::Content;
                 } else { b = snap::<H>(); a = snap::<H>(); r = R::Bad; }
             }
+            "j" => {
+                if live(&hs, hidx) {
+                    let h = hs[hidx].take().unwrap();
+                    b = snap::<H>();
+                    let v = h.into_std_read(&mut scratch);
+                    a = snap::<H>();
+                    r = match v { Some(bw) => R::Std(bw), None => R::Fault("NoStdCow") };
+                } else { b = snap::<H>(); a = snap::<H>(); r = R::Bad; }
+            }
             "x" => {
                 if live(&hs, hidx) {
                     let h = hs[hidx].take().unwrap();
@@ -399,7 +442,7 @@ fn run_ops<H: Hd>(ops: &str) -> String {
         else if c == "C" && !slot.is_empty() { let x = slot.pop().unwrap(); arcs[hidx].push(x); }
         let res = if a.bad != b.bad { "fBadFree".to_string() } else {
             match r {
-                R::Unit => "u".into(), R::Content => format!("c{}", hex(&scratch)), R::Cmp(x) => format!("m{}", x),
+                R::Unit => "u".into(), R::Content => format!("c{}", hex(&scratch)), R::Std(bw) => format!("j{}{}", if bw { "B" } else { "O" }, hex(&scratch)), R::Cmp(x) => format!("m{}", x),
                 R::Panic => "p".into(), R::Bad => "bad".into(), R::Fault(f) => format!("f{}", f),
             }
         };
